@@ -64,6 +64,9 @@ func c08Scan(src string) (res string) {
 					return "none"
 				}
 			}
+			if j < len(src) && src[j] == '.' { // `1.` float, `1...` INT ELLIPSIS: outside the model
+				return "none"
+			}
 		}
 		i = j
 	}
